@@ -198,8 +198,9 @@ class SessionRef:
             if s.ended is not None:
                 continue
             s.quiet_all += 1
-            if target_on:
-                s.quiet_on += 1
+            s.quiet_on += 1  # every tick counts, whatever the power state of the target: idle time is idle time (the real time-out
+            # bookkeeping runs on a powered-off node as well; an earlier version of this model only counted powered-on ticks and so
+            # could not see time-outs skipped while the target was down)
             if s.quiet_on >= self.timeout + 2:
                 s.ended = "timeout"
 
